@@ -49,8 +49,9 @@ class PatchList:
         self.merged.append([master, slave])
 
     def clear(self) -> None:
-        """Removes collected patches but leaves settings intact"""
-        self.patches.clear()
+        """Removes collected sides but leaves patches' settings intact"""
+        for patch in self.patches.values():
+            patch.sides.clear()
 
     @property
     def description(self) -> str:
